@@ -146,6 +146,8 @@ def run_impl(case, entry="predict"):
     s = SettingsCreator(link_type=case["link_type"], comparisons=[cl.ExactMatch("a")],
                         blocking_rules_to_generate_predictions=case["rules"],
                         retain_intermediate_calculation_columns=False)
+    if entry == "em_block":
+        return run_em_block(case, tabs, s)
     lk = su.linker(tabs, s, case["backend"], aliases=case["names"] if len(tabs) > 1 else None)
     out = lk.inference.predict() if entry == "predict" else lk.inference.deterministic_link()
     res = []
@@ -153,6 +155,42 @@ def run_impl(case, entry="predict"):
         sl = r.get("source_dataset_l", case["names"][0])
         sr = r.get("source_dataset_r", case["names"][0])
         res.append((int(r.get("match_key", 0)), (sl, int(r["unique_id_l"])), (sr, int(r["unique_id_r"]))))
+    return res
+
+
+def run_em_block(case, tabs, s):
+    """Training block of estimate_parameters_using_expectation_maximisation: capture the
+    materialised __splink__blocked_id_pairs table by wrapping the DatabaseAPI."""
+    from splink import DuckDBAPI
+    from splink.internals.sqlite.database_api import SQLiteAPI
+    base = DuckDBAPI if case["backend"] == "duckdb" else SQLiteAPI
+    captured = []
+
+    class Cap(base):
+        def sql_pipeline_to_splink_dataframe(self, pipeline, use_cache=True):
+            sdf = super().sql_pipeline_to_splink_dataframe(pipeline, use_cache)
+            if sdf.templated_name == "__splink__blocked_id_pairs":
+                captured.append(sdf.as_record_dict())
+            return sdf
+
+    api = Cap() if case["backend"] == "duckdb" else Cap(":memory:")
+    lk = su.linker(tabs, s, case["backend"], aliases=case["names"] if len(tabs) > 1 else None, api=api)
+    try:
+        lk.training.estimate_parameters_using_expectation_maximisation(rule_sql(case["rules"][0]))
+    except Exception:
+        pass
+    su.quiet()
+    if not captured:
+        raise RuntimeError("EM training did not materialise __splink__blocked_id_pairs")
+    res = []
+    for r in captured[0]:
+        def split(k):
+            k = str(k)
+            if "-__-" in k:
+                a, b = k.split("-__-")
+                return (a, int(b))
+            return (case["names"][0], int(k))
+        res.append((int(r["match_key"]), split(r["join_key_l"]), split(r["join_key_r"])))
     return res
 
 
@@ -271,8 +309,12 @@ def correspondence(ctx: Ctx, extra_cases=None):
             f = features_of(case)
             if f["array_rule_before_exploding"]:
                 continue
-            rows, mats = outcome_matrices(case)
             entry = "predict" if i % 3 else "deterministic_link"
+            if i % 5 == 4 and case["rules"] and isinstance(case["rules"][0], str):
+                # the training block of an EM session blocks on one rule
+                entry = "em_block"
+                case = dict(case, rules=[case["rules"][0]])
+            rows, mats = outcome_matrices(case)
             impl = run_impl(case, entry)
             t, expd = case_term(case, rows, mats, impl)
             terms.append(t)
